@@ -1736,6 +1736,8 @@ def load_corpus():
 def run(ctx):
     _seen_bytes.clear()
     DIM.clear()
+    cpu0 = time.process_time()
+    wall0 = time.time()
     corpus = load_corpus()
     tree_cases = [c for c in corpus if c.get("kind") == "tree"]
     tree_cases += near_collision_cases(ctx.rng)
@@ -1823,6 +1825,7 @@ def run(ctx):
     ctx.obligation("oracle:listing", not any(v.kind == "oracle" for v in ctx.violations),
                    f"{len(t_items)} tree cases, {len(h_items)} operation histories on one Tree object and {len(b_items)} real builds judged by the independent canonical encoder "
                    "(permutation, metadata, round trip, sub-directory, configuration independence, pairwise injectivity)")
+    ctx.extra["python_phase"] = {"cpu_s": round(time.process_time() - cpu0, 1), "wall_s": round(time.time() - wall0, 1)}
     ctx.correspond("tree", IMPORTS, TREE_INPUT, TREE_MODEL, t_items, shard=16)
     ctx.correspond("history", IMPORTS, "list hop", HIST_MODEL, h_items, shard=20)
     ctx.correspond("build", IMPORTS, "hconf * (list (list (list N)) * list (key * list hfile))", BUILD_MODEL,
